@@ -217,7 +217,95 @@ pub fn c06_part(report: &Report, max_len: usize) {
     }
 }
 
+/// runs `tools/pyfront.py families <from> <to>` with a watchdog; returns (result, index of the case that hung)
+fn run_py_families(from: u64, to: u64, timeout_s: u64) -> Result<Option<(Option<Value>, Option<u64>)>, String> {
+    use std::io::Read;
+    let dir = verif_dir();
+    let so = dir.join("pyfront").join("pkg").join("constriction.so");
+    if !so.exists() { return Ok(None); }
+    let mut child = match std::process::Command::new("python3-vt")
+        .arg(dir.join("tools").join("pyfront.py")).args(["families", &from.to_string(), &to.to_string()])
+        .env("PYTHONPATH", dir.join("pyfront").join("pkg")).env("PYTHONWARNINGS", "ignore")
+        .stdout(std::process::Stdio::piped()).stderr(std::process::Stdio::piped()).spawn() {
+        Ok(c) => c,
+        Err(_) => return Ok(None),
+    };
+    let mut err = child.stderr.take().unwrap();
+    let errt = std::thread::spawn(move || { let mut s = String::new(); let _ = err.read_to_string(&mut s); s });
+    let mut out = child.stdout.take().unwrap();
+    let outt = std::thread::spawn(move || { let mut s = String::new(); let _ = out.read_to_string(&mut s); s });
+    let start = std::time::Instant::now();
+    let mut timed_out = false;
+    loop {
+        match child.try_wait() {
+            Ok(Some(_)) => break,
+            Ok(None) => {
+                if start.elapsed().as_secs() > timeout_s { timed_out = true; let _ = child.kill(); let _ = child.wait(); break; }
+                std::thread::sleep(std::time::Duration::from_millis(50));
+            }
+            Err(e) => return Err(e.to_string()),
+        }
+    }
+    let stderr = errt.join().unwrap_or_default();
+    let stdout = outt.join().unwrap_or_default();
+    let last_marker = stderr.lines().rev().find_map(|l| l.strip_prefix('@').and_then(|x| x.trim().parse::<u64>().ok()));
+    if timed_out {
+        return Ok(Some((None, last_marker)));
+    }
+    let line = stdout.lines().rev().find(|l| l.starts_with('{')).ok_or_else(|| format!("pyfront.py families printed no result; stderr: {}", stderr.lines().rev().take(3).collect::<Vec<_>>().join(" / ")))?;
+    let v: Value = serde_json::from_str(line).map_err(|e| e.to_string())?;
+    if v.get("unavailable").is_some() { return Ok(None); }
+    Ok(Some((Some(v), None)))
+}
+
+/// the parameterised model families of the Python front end with arbitrary (also invalid) parameters
+fn c19_families(report: &Report) {
+    let t = std::time::Instant::now();
+    let mut from = 0u64;
+    let mut total: Option<u64> = None;
+    let (mut n, mut hangs, mut fails) = (0u64, 0u64, 0u64);
+    let mut guard = 0;
+    loop {
+        guard += 1;
+        if guard > 40 { report.cap_hit("Python model families: more than 40 restarts after hanging cases; the rest is not covered"); break; }
+        let to = total.unwrap_or(u64::MAX / 2);
+        match run_py_families(from, to, 12) {
+            Ok(None) => return not_covered(report, "bindings not built or python3-vt missing"),
+            Err(e) => { eprintln!("MACHINERY: {e}"); std::process::exit(2); }
+            Ok(Some((Some(v), _))) => {
+                n += v["checked"].as_u64().unwrap_or(0);
+                fails += report_failures(report, &v, "");
+                if total.is_none() { total = v["counters"]["family_total"].as_u64(); }
+                break;
+            }
+            Ok(Some((None, Some(i)))) => {
+                // confirm the hang of case i on its own, then go on behind it
+                hangs += 1;
+                let confirmed = matches!(run_py_families(i, i + 1, 6), Ok(Some((None, _))));
+                // the cases before i were fine or are re-run below; re-run [from, i) to collect their findings
+                if i > from {
+                    if let Ok(Some((Some(v), _))) = run_py_families(from, i, 30) { n += v["checked"].as_u64().unwrap_or(0); fails += report_failures(report, &v, ""); if total.is_none() { total = v["counters"]["family_total"].as_u64(); } }
+                }
+                if confirmed {
+                    report.violation(Violation { identity: "Python front end | parameterised model family | parameters are accepted but coding with the model does not terminate".into(),
+                        detail: format!("family case #{i} of tools/pyfront.py (`python3-vt tools/pyfront.py families {i} {}`) hangs: killed by the watchdog twice", i + 1), case: json!({"kind": "none"}) });
+                    fails += 1;
+                }
+                n += 1;
+                from = i + 1;
+            }
+            Ok(Some((None, None))) => { report.cap_hit("Python model families: watchdog fired before the first case"); break; }
+        }
+    }
+    report.add_states(n);
+    report.count("python_family_cases", n);
+    report.count("python_family_cases_hanging", hangs);
+    report.section(json!({"part": "Python front end: parameterised model families with arbitrary parameters", "what": "QuantizedGaussian / Laplace / Cauchy (5 locations x 15 scales), Binomial (4 n x 15 p), Bernoulli (15 p), Uniform (9 sizes); scalar constructor arguments and per-symbol parameter arrays: an exception, or a model on which support symbols round-trip and arbitrary words decode into the support and re-encode to themselves; hangs found by watchdog",
+        "cases": n, "hanging_cases": hangs, "failures": fails, "wall_s": t.elapsed().as_secs_f64()}));
+}
+
 pub fn c19_part(report: &Report) {
+    c19_families(report);
     match run_py(&["constructors"]) {
         Ok(None) => not_covered(report, "bindings not built or python3-vt missing"),
         Err(e) => { eprintln!("MACHINERY: {e}"); std::process::exit(2); }
